@@ -66,6 +66,83 @@ Definition run_swap_live (len : bool) (ps : Z) (ms : list mitem) (si : Z * Z * Z
        (if wf_kernel k then JC "Val" [jv_swap (spec_swap k)] else jnone);
        jbool (negb (no_junk ms)); same_as (Some mi) real_mi ].
 
+(* big files are handed to the harness as text (a Coq string prints in linear time; a list of 40 000
+   numbers does not): JC "<text>" [] *)
+Fixpoint string_of_bytes (b : bytes) : string :=
+  match b with
+  | [] => EmptyString
+  | c :: r => String (ascii_of_N (Z.to_N c)) (string_of_bytes r)
+  end.
+Definition jtext (b : bytes) : jv := JC (string_of_bytes b) [].
+Definition jlines {A} (f : A -> bytes) (l : list A) : jv := JL (map (fun x => jtext (f x)) l).
+(* byte offset of the first digit of the j-th "low" line and of the end of that line *)
+Definition zlen (b : bytes) : Z := Z.of_nat (length b).
+Fixpoint low_span (j : nat) (zs : list zline) (off : Z) : option (Z * Z) :=
+  match zs with
+  | [] => None
+  | z :: r =>
+    let n := zlen (k_zline z) in
+    match z, j with
+    | ZLow w1 w2 _ _, O => Some (off + zlen w1 + 3 + zlen w2, off + n)
+    | ZLow _ _ _ _, S j' => low_span j' r (off + n)
+    | ZOther _, _ => low_span j r (off + n)
+    end
+  end.
+(* choose the filler so that byte offset [at] falls  mode 0: nowhere special (no filler)
+   1: after the first digit of the j-th low line   2: exactly at the end of that line (after its newline)
+   3: exactly at its first digit   4: before the last digit *)
+Definition big_fill (mode j : nat) (at_ : Z) (zs0 : list zline) : nat :=
+  match mode, low_span j zs0 0 with
+  | O, _ | _, None => O
+  | 1%nat, Some (d, e) => Z.to_nat (at_ - (d + 1))
+  | 2%nat, Some (d, e) => Z.to_nat (at_ - e)
+  | 3%nat, Some (d, e) => Z.to_nat (at_ - d)
+  | _, Some (d, e) => Z.to_nat (at_ - (e - 2))
+  end.
+Definition run_vm_big (len : bool) (ps : Z) (ms : list mitem) (nodes zones cpus : nat) (seed : Z)
+                      (mode j : nat) (at_ : Z) : jv :=
+  let zs0 := big_zoneinfo nodes zones cpus (seed_low seed) 0 in
+  let zs := big_zoneinfo nodes zones cpus (seed_low seed) (big_fill mode j at_ zs0) in
+  let k := mk_kernel ms (Some zs) None ps (0, 0, 1) in
+  let mi := k_meminfo ms in
+  let zi := k_zoneinfo zs in
+  JL [ JB mi; jlines k_zline zs;
+       jv_outcome jv_vm (virtual_memory_gen len ps mi (Some zi));
+       (if wf_kernel k && has_total_free k && float_exact k then JC "Val" [jv_vm (spec_vm k)] else jnone);
+       jbool (negb (no_junk ms)); jbool (float_exact k);
+       JL [JZ (zlen zi); JZ (low_pages zs);
+           jopt (fun p => JL [JZ (fst p); JZ (snd p)]) (low_span j zs 0)] ].
+
+(* meminfo and vmstat beyond 32 KiB: [n] extra counter lines of [w] further bytes each in front of the
+   lines that matter (wide lines keep the number of distinct names, hence the cost of the dict, small) *)
+Definition big_mem (n w : nat) (tail : list mitem) : list mitem :=
+  map (fun i => MLine {| ml_name := bs "Extra" ++ dec_of (Z.of_nat i) ++ [58]; ml_pad := 3;
+                         ml_val := dec_of (Z.of_nat i * 3); ml_rest := bs " kB " ++ repeat 35 w |}) (seq 0 n) ++ tail.
+Definition big_vm (n w : nat) (tail : list vitem) : list vitem :=
+  map (fun i => VLine {| vl_name := bs "nr_extra_counter_" ++ dec_of (Z.of_nat i);
+                         vl_val := dec_of (Z.of_nat i * 5); vl_rest := 32 :: repeat 35 w |}) (seq 0 n) ++ tail.
+Definition run_swap_big (len : bool) (ps : Z) (nm w : nat) (mtail : list mitem) (si : Z * Z * Z)
+                        (nv : nat) (vtail : list vitem) : jv :=
+  let ms := big_mem nm w mtail in
+  let vs := big_vm nv w vtail in
+  let k := mk_kernel ms None (Some vs) ps si in
+  let mi := k_meminfo ms in
+  let vi := k_vmstat vs in
+  JL [ jlines k_mitem ms; jlines k_vitem vs;
+       jv_outcome jv_swap (swap_memory_gen len ps mi si (Some vi));
+       (if wf_kernel k then JC "Val" [jv_swap (spec_swap k)] else jnone);
+       jbool (negb (no_junk ms)); JL [JZ (zlen mi); JZ (zlen vi)] ].
+(* big meminfo for virtual_memory(): the lines that matter come after [nm] extra counters *)
+Definition run_vm_bigmem (len : bool) (ps : Z) (nm w : nat) (mtail : list mitem) (zs : option (list zline)) : jv :=
+  let ms := big_mem nm w mtail in
+  let k := mk_kernel ms zs None ps (0, 0, 1) in
+  let mi := k_meminfo ms in
+  let zi := option_map k_zoneinfo zs in
+  JL [ jlines k_mitem ms; jopt JB zi;
+       jv_outcome jv_vm (virtual_memory_gen len ps mi zi);
+       (if wf_kernel k && has_total_free k && float_exact k then JC "Val" [jv_vm (spec_vm k)] else jnone);
+       jbool (negb (no_junk ms)); jbool (float_exact k); JL [JZ (zlen mi)] ].
+
 Definition run_swap (len : bool) (ps : Z) (ms : list mitem) (si : Z * Z * Z) (vs : option (list vitem)) : jv :=
   let k := mk_kernel ms None vs ps si in
   let mi := k_meminfo ms in
